@@ -81,6 +81,13 @@ where
     }
 }
 
+#[cfg(bma400_verif)]
+impl AutoWakeupConfig {
+    pub(crate) fn verif_regs(&self) -> [(u8, u8); 2] {
+        verif_regs!(self; auto_wakeup0, auto_wakeup1)
+    }
+}
+
 #[cfg(test)]
 mod tests {
     use crate::tests::get_test_device;
